@@ -458,6 +458,12 @@ fn exp_digits(radix: u32) -> BoxedStrategy<Vec<u8>> {
         4 => proptest::collection::vec(0u8..r, 1..=4),
         1 => proptest::collection::vec(0u8..r, 5..=12),
         1 => proptest::collection::vec(0u8..r, 19..=45),
+        // exponents around the widths the parser stores them in (i32 / i64 limits, the 0x1000
+        // guard of the moderate path), within a few hundred of the limit
+        1 => (0usize..10, -400i128..=400).prop_map(move |(b, d)| {
+            let base: i128 = [0x1000, 0x7fff, 0xffff, i32::MAX as i128, 1i128 << 31, 1i128 << 32, i64::MAX as i128, 1i128 << 63, 1i128 << 64, 0x7fff_ffff - 350][b];
+            Big::from_u128((base + d).max(0) as u128).to_digits(radix)
+        }),
     ]
     .boxed()
 }
@@ -586,6 +592,48 @@ pub fn beyond_range_text(k: FloatKind, rx: Radices, point: u8, exp_char: u8) -> 
             }
             let c = Canon { neg, sig, eb: (digits.len() - n) as i64 * dpb };
             (render_canon(&c, rx, point, exp_char, &lay), "beyond-range")
+        })
+        .boxed()
+}
+
+/// Near-halfway inputs whose digit string, read as an integer, has whole low 64-bit limbs of
+/// zeros: `D * base^e` with `D = floor(M / base^e)` rounded down (or up) to a multiple of 2^z,
+/// z a multiple of 64, M the midpoint above a large float. The relative distance to the halfway
+/// point is below 2^-66, so the slow (big-integer) path decides, and its multiplications see
+/// operands with zero limbs.
+pub fn limb_aligned_text(k: FloatKind, rx: Radices, point: u8, exp_char: u8) -> BoxedStrategy<(Vec<u8>, &'static str)> {
+    let dpb = rx.digits_per_base().unwrap() as i64;
+    let min_q = 70i64;
+    (finite_mag(k), 0u32..330, 1u64..9, any::<bool>(), any::<bool>(), layout())
+        .prop_map(move |(bits, e_want, zl, up, neg, lay)| {
+            // midpoints that are integers with room for a zero limb
+            let (m, q) = k.decode(bits.max(1));
+            let q = q.max(min_q);
+            let mid = Big::from_u128(2 * m as u128 + 1).shl((q - 1) as u64);
+            // divide by mant^e while at least 130 bits remain
+            let mut d = mid.clone();
+            let mut e = 0i64;
+            while (e as u32) < e_want {
+                let mut t = d.clone();
+                t.divrem_small(rx.mant as u64);
+                if t.bit_len() < 130 {
+                    break;
+                }
+                d = t;
+                e += 1;
+            }
+            let z = (zl * 64).min((d.bit_len().saturating_sub(66) / 64) * 64);
+            let mut dd = d.shr(z).shl(z);
+            if up {
+                dd = dd.add(&Big::from_u64(1).shl(z));
+            }
+            let c = Canon { neg, sig: dd.to_digits(rx.mant), eb: e * dpb };
+            // keep the digits together: integer digits followed by the exponent (layout style 2)
+            let mut lay = lay;
+            lay.style = 2;
+            lay.lead_zeros = 0;
+            lay.trail_zeros = 0;
+            (render_canon(&c, rx, point, exp_char, &lay), "limb-aligned")
         })
         .boxed()
 }
